@@ -43,6 +43,15 @@ def gen(rng, depth):
                 (" ", "ws"), ("|>", "op"), (" ", "ws"), gen(rng, depth - 2)]
     if k < 0.86:
         return [gen(rng, depth - 1), ("\n\n", "sep"), gen(rng, depth - 1)]
+    if k < 0.90:
+        # two or three adjacent side-effect blocks, then whitespace, then an operand: the blocks have
+        # no operand of their own, so the whitespace is plain layout (not the list operator)
+        out = []
+        for j in range(rng.randint(2, 3)):
+            if j and rng.random() < 0.4:
+                out.append((" ", "ws"))
+            out.append([("[", "open"), gen(rng, depth - 2), ("]", "close")])
+        return out + [(" ", "ws"), gen(rng, depth - 1)]
     if k < 0.96:
         # nested expression, possibly with a multi-line body, applied
         body = [gen(rng, depth - 2)]
@@ -104,6 +113,11 @@ def rewrites(node, rng):
         if k == "atom":
             out.append(("parens", replace_at(node, path, [[("(", "open"), p, (")", "close")]])))
             out.append(("side_effect", replace_at(node, path, [p, (" ", "ws"), ("[0]", "atom")])))
+    # a comment / annotation next to a blank line at either end of the program
+    out.append(("leading_comment_blank", [("@@ header" + rng.choice(["\n\n\n", "\n\n\n\n", "\n \n\n"]), "ws")] + node))
+    out.append(("leading_annotation_blank", [("@note" + rng.choice(["\n\n", " \n\n", "\n\n\n"]), "ws")] + node))
+    out.append(("trailing_comment_blank", node + [(rng.choice(["\n\n", "\n\n\n", " \n\n"]) + "@@ footer", "ws")]))
+    out.append(("trailing_annotation_blank", node + [(rng.choice(["\n\n", "\n\n "]) + "@note" + rng.choice(["", " ", "\n"]), "ws")]))
     out.append(("leading_comment", [("@@ first line\n", "ws")] + node))
     out.append(("trailing_comment", node + [(" @@ last", "ws")]))
     out.append(("trailing_space", node + [("  ", "ws")]))
@@ -155,6 +169,16 @@ def shape(parsed, defs, strip_side_effects=False):
 def significant(orc, tts):
     toks = [int(x) for x in orc.split(";")[0][5:].split(",") if x] if orc.startswith("toks=") else []
     return [t for t in toks if tts[t] not in ("Whitespace", "Annotation", "LineAnnotation")]
+
+
+def strip_end_separators(sig, tts):
+    """drop blank-line separator tokens at either end (they are trimmed before parsing)"""
+    a, b = 0, len(sig)
+    while a < b and tts[sig[a]] == "Subexpression":
+        a += 1
+    while b > a and tts[sig[b - 1]] == "Subexpression":
+        b -= 1
+    return sig[a:b]
 
 
 def run(tier, seed):
@@ -227,6 +251,8 @@ def run(tier, seed):
                 run1 = m1.group(1) if m1 else None
                 # the rewrite must leave the sequence of non-trivia tokens alone, apart from the tokens it adds
                 s0, s1 = significant(orc0, tts), significant(orc, tts)
+                if name.endswith("_blank"):
+                    s0, s1 = strip_end_separators(s0, tts), strip_end_separators(s1, tts)
                 extra = {"parens": 2, "side_effect": 3}.get(name, 0)
                 it = iter(s1)
                 if len(s1) != len(s0) + extra or not all(t in it for t in s0):
@@ -268,8 +294,8 @@ def run(tier, seed):
     v.coverage.update({
         "evaluations": evaluations, "distinct_nontrivial": len(distinct),
         "rule": "seeded grammar-generated programs x every single application of: widen a whitespace run, remove it (only when the non-trivia token "
-                "sequence is unchanged), trailing whitespace before a blank line, annotation in a whitespace gap, comment line after a blank line / first / "
-                "last, parentheses around an atom, ` [0]` side-effect block after an atom, trailing spaces; non-trivial = rewrite applied to an accepted program",
+                "sequence is unchanged), trailing whitespace before a blank line, annotation in a whitespace gap, comment line after a blank line / first / last, comment or annotation next to a blank line at the very start / end, "
+                " parentheses around an atom, ` [0]` side-effect block after an atom, trailing spaces; non-trivial = rewrite applied to an accepted program",
         "samples": samples, "histogram": dict(stats)})
     return v.finish("proof")
 
